@@ -165,7 +165,15 @@ func NewRedisOutput(cfg RedisOutputConfig) *RedisOutput {
 	ro.outFilter.InsertCmdBlackList(filter.NoRouteCmds, true)
 	ro.outFilter.InsertCmdBlackList(cfg.Filter.CmdBlacklist, true)
 
-	ro.outFilter.InsertPrefixKeyBlackList([]string{config.CheckpointKey, config.NamespacePrefixKey})
+	reservedPrefixes := []string{config.CheckpointKey, config.NamespacePrefixKey}
+	if !ro.bisyncEnabled() {
+		// The bisync control keys (marker, latest, commit, index, rdb records) of a source that
+		// is itself a bisync site are bookkeeping too. A bisync link keeps them visible to its
+		// parser, which needs the markers to recognise mirrored transactions and drops the
+		// control commands itself.
+		reservedPrefixes = append(reservedPrefixes, checkpoint.BisyncKeyPrefix+":")
+	}
+	ro.outFilter.InsertPrefixKeyBlackList(reservedPrefixes)
 	keyFilter := cfg.Filter.KeyFilter
 	if keyFilter != nil {
 		ro.outFilter.InsertPrefixKeyBlackList(keyFilter.PrefixKeyBlacklist)
